@@ -35,6 +35,7 @@ type dumpWorld struct {
 	upd      int
 	updArgs  []any
 	old      map[string]bool // methods of the recorded (pre-upgrade) contract
+	curVer   int64           // version() of the contract as last observed
 }
 
 func dumpDir(kind string) string {
@@ -159,6 +160,31 @@ func (d *dumpWorld) exec(w *world, st Step) chain.Rec {
 		for i := 0; i < 21; i++ {
 			d.c.AddNewBlock(d.t)
 		}
+	case "prep":
+		// an operation of the RECORDED (old) contract that changes a stored parameter the migration depends on
+		rec["op"] = st.Op
+		var args []any
+		method := ""
+		switch st.Op {
+		case "snapcount":
+			method, args = "updateSnapshotCount", []any{st.V}
+		case "newepoch":
+			e := int64(0)
+			if it, ok := d.call("epoch"); ok {
+				n, _ := it.TryInteger()
+				e = n.Int64()
+			}
+			method, args = "newEpoch", []any{e + 1}
+		default:
+			d.t.Fatalf("unknown prep op %q", st.Op)
+		}
+		tx := d.c.WithSigners(d.c.Committee).PrepareInvoke(d.t, method, args...)
+		d.c.AddNewBlock(d.t, tx)
+		aer := d.c.GetTxExecResult(d.t, tx.Hash())
+		if aer.VMState != vmstate.Halt {
+			rec["res"] = "FAULT"
+			rec["fault"] = aer.FaultException
+		}
 	case "update":
 		if v, ok := d.call("version"); ok {
 			n, _ := v.TryInteger()
@@ -243,11 +269,15 @@ func (d *dumpWorld) nodeStr(it stackitem.Item) string {
 		return "x"
 	}
 	blob, _ := leaves[0].TryBytes()
-	st := "1"
+	st := "1" // the legacy structure has no state: implicitly Online
 	if len(leaves) > 1 {
 		if n, err := leaves[1].TryInteger(); err == nil {
 			st = n.String()
 		}
+	}
+	// an answer of a contract that has the two-field layout (>= 0.16) must be well-formed
+	if d.curVer >= 16000 && !wellFormedNode(it) {
+		st = "?"
 	}
 	return sha256sum(blob) + ":" + st
 }
@@ -324,6 +354,26 @@ func traps(tier string, seed int64) []*Scenario {
 		}
 	}
 	out = append(out, &Scenario{N: 1, Kind: "nns", Mode: "dump", Dump: "testnet", Src: "trap:dump", Steps: []Step{up(0, "X"), up(0, "CMT"), up(0, "CMT")}})
+	// stored parameters changed through the OLD contract before the upgrade: snapshot depth below / above the default,
+	// then a few epochs (recorded testnet dump: 0.15.4, legacy node structures; mainnet: 0.16.3, non-notary mode)
+	prep := func(op string, v int64) Step { return Step{Act: "prep", S: []string{}, V: v, Op: op} }
+	for _, cnt := range []int64{3, 12, 15} {
+		for _, d := range []string{"testnet", "mainnet"} {
+			out = append(out, &Scenario{N: 1, Kind: "netmap", Mode: "dump", Dump: d, Src: "trap:dump-snapcount", Steps: []Step{
+				prep("snapcount", cnt), prep("newepoch", 0), prep("newepoch", 0), up(0, "X"), up(0, "CMT"), up(0, "CMT")}})
+		}
+		out = append(out, &Scenario{N: 3, Kind: "netmap", Mode: "real", Lv: cfgNew - 1, Src: "trap:real-snapcount", Steps: []Step{
+			prep("snapcount", cnt), prep("newepoch", 0), prep("newepoch", 0), prep("newepoch", 0), up(0, "X"), up(0, "CMT")}})
+	}
+	// the ring of every size, every slot in the legacy layout, the current slot at both ends
+	for _, rc := range [][2]int{{1, 0}, {10, 9}, {12, 11}, {15, 0}, {15, 14}} {
+		st := []Item{{"snapcount", "", "", strconv.Itoa(rc[0])}, {"snapcur", "", "", strconv.Itoa(rc[1])}, {"epoch", "", "", "31"}, {"block", "", "", "9"},
+			{"blhash", "", "", "hb"}, {"cnhash", "", "", "hc"}, {"ocand", "k1", "", "1"}, {"ocand", "k2", "", "3"}, {"cfg", "A", "", "va"}}
+		for i := 0; i < rc[0]; i++ {
+			st = append(st, Item{"osnap", strconv.Itoa(i), "k1", ""}, Item{"osnap", strconv.Itoa(i), uNodes[1+i%2], ""})
+		}
+		out = append(out, &Scenario{N: 3, Kind: "netmap", Mode: "shell", Src: "trap:ring", Store: st, Steps: []Step{up(cfgPrev, "X")}})
+	}
 	// pending vote -> wait -> accepted
 	out = append(out, &Scenario{N: 3, Kind: "balance", Mode: "shell", Src: "trap:pending", Store: []Item{{"acc", "u1", "", "5"}, {"acc", "l1", "", "3"},
 		{"supply", "", "", "8"}, {"notary", "", "", "true"}, {"ballots", "", "", "mixed"}, {"nmhash", "", "", "h"}, {"cnhash", "", "", "h"}, {"junk20", "", "", "x"}},
